@@ -204,8 +204,8 @@ def r07_4(run, model):
 
 
 def run(run, model):
-    r07_1(run, model)
-    r07_2(run, model)
-    r07_3(run, model)
-    r07_4(run, model)
+    run.try_rule(r07_1, model)
+    run.try_rule(r07_2, model)
+    run.try_rule(r07_3, model)
+    run.try_rule(r07_4, model)
     run.assume("after the typer no TVar remains and TParam occurs only in generic definitions (C03 clauses)")
